@@ -1,7 +1,11 @@
 package props
 
 import (
+	"bytes"
 	"fmt"
+	"github.com/Syuparn/pangaea/runscript"
+	"os"
+	"path/filepath"
 	"strings"
 
 	"github.com/Syuparn/pangaea/object"
@@ -18,6 +22,7 @@ import (
 const c07prelude = `T := {|i, v| "T#{i}".p; v}
 R := {|j, v| "R#{j}".p; raise ValueErr.new("boom#{j}")}
 RZ := {|j, v| "R#{j}".p; 1 / 0}
+RS := {|j, v| "R#{j}".p; raise StopIterErr.new("boom#{j}")}
 o := {m: m{|a, b, k: 0| [a, b, k]}, id: 1}
 f := {|a, b, k: 0| [a, b, k]}
 fv := {|x| x.f}
@@ -141,6 +146,20 @@ func c07chainTemplates() []c07tmpl {
 		".lazyMap {|x| x}.chain([9]).A", ".lazyMap {|x| x}.append(9).sum", ".withI.lazyMap {|p| p}.A"} {
 		ts = append(ts, c07tmpl{name: "iterator receiver Iterable#" + sfx, text: itr + sfx})
 	}
+	// functions handed to the native library (predicates, patterns, callbacks): what they raise reaches the caller
+	for _, cb := range []struct{ name, text string }{
+		{"pattern function under ===", "5 === {|x| «0:int»; true}"}, {"pattern function under !==", "5 !== {|x| «0:int»; true}"},
+		{"pattern function in case", "5.case(%{{|x| «0:int»; false}: 1, {|x| «1:int»; true}: 2})"}, {"grep with a function", "[1, 2].grep {|x| «0:int»; true}"},
+		{"indices with a function element", "[{|x| «0:int»; true}].indices(3)"}, {"tap", "5.tap {|x| «0:int»}"}, {"all?", "[1, 2].all? {|x| «0:int»; true}"},
+		{"any?", "[1, 2].any? {|x| «0:int»; false}"}, {"select", "[1, 2].select {|x| «0:int»; true}"}, {"exclude", "[1, 2].exclude {|x| «0:int»; false}"},
+		{"find", "[1, 2].find {|x| «0:int»; false}"}, {"keyBy", "[1, 2].keyBy {|x| «0:int»; x}"}, {"map", "[1, 2].map {|x| «0:int»; x}"},
+		{"acc", "[1, 2].acc({|a, x| «0:int»; a + x}, init: 0).A"}, {"reduce", "[1, 2].reduce({|a, x| «0:int»; a + x}, init: 0)"},
+		{"until", "[1, 2].until {|x| «0:int»; false}.A"}, {"while", "[1, 2].while {|x| «0:int»; true}.A"}, {"doUntil", "[1, 2]._iter.doUntil {|x| «0:int»; false}.A"},
+		{"doWhile", "[1, 2]._iter.doWhile {|x| «0:int»; true}.A"}, {"flipflop", "[1, 2, 3].flipflop({|x| «0:int»; true}, {|x| «1:int»; false}).A"},
+		{"Str pattern", "\"ab\" === {|x| «0:int»; true}"}, {"sort with user <=>", "[{'<=>: m{|o| «0:int»; 0}}, 2].sort"},
+	} {
+		ts = append(ts, c07tmpl{name: "native callback: " + cb.name, text: cb.text})
+	}
 	ts = append(ts, c07tmpl{name: "iterator argument of chain", text: "[9].chain(" + itr + ").A"})
 	ts = append(ts, c07tmpl{name: "iterator argument of zip", text: "[7, 8, 9].zip(" + itr + ").A"})
 	ts = append(ts, c07tmpl{name: "raising callback of lazyMap through chain", text: "[0].chain([1, 2, 3].lazyMap {|x| [«0:int», «1:int», «2:int»][x - 1]; x}).A", noFault: map[int]bool{}})
@@ -263,8 +282,55 @@ func runC07(w *fw.W) {
 			all = append(all, c07tmpl{name: "nested " + out.name + "[1] ⊃ " + in.name, text: text, allow: in.allow})
 		}
 	}
+	// entry point `pangaea test <dir>`: an uncaught raise in a file ends the run with that failure (status 1);
+	// nothing after it is evaluated, whatever files follow
+	if w.Take() {
+		w.Begin("test-directory entry point", nil)
+		var vs violSet
+		n := 0
+		for _, layout := range [][]string{{"ok", "raise", "ok"}, {"raise", "ok"}, {"ok", "ok", "raise"}, {"ok", "raise", "raise", "ok"}, {"raise"}, {"ok", "host", "ok"}} {
+			dir, err := os.MkdirTemp(os.Getenv("VERIF_TMP"), "c07dir")
+			if err != nil {
+				panic("C07 harness: " + err.Error())
+			}
+			firstBad := -1
+			for i, kind := range layout {
+				src := fmt.Sprintf("\"F%d\".p\n", i)
+				switch kind {
+				case "raise":
+					src += fmt.Sprintf("raise ValueErr.new(\"boom%d\")\n\"AFTER%d\".p\n", i, i)
+				case "host":
+					src += fmt.Sprintf("1 / 0\n\"AFTER%d\".p\n", i)
+				}
+				if kind != "ok" && firstBad < 0 {
+					firstBad = i
+				}
+				os.WriteFile(filepath.Join(dir, fmt.Sprintf("t%d_test.pangaea", i)), []byte(src), 0o644)
+			}
+			var out bytes.Buffer
+			code := runscript.RunTest(dir, strings.NewReader(""), &out)
+			os.RemoveAll(dir)
+			n++
+			var printed []string
+			for _, l := range strings.Split(out.String(), "\n") {
+				if strings.HasPrefix(l, "F") || strings.HasPrefix(l, "AFTER") {
+					printed = append(printed, l)
+				}
+			}
+			var want []string
+			for i := 0; i <= firstBad; i++ {
+				want = append(want, fmt.Sprintf("F%d", i))
+			}
+			if code != 1 || strings.Join(printed, ",") != strings.Join(want, ",") {
+				vs.add("C07|test-directory|run-continued-or-succeeded-after-a-raise", fmt.Sprintf("files %v: `pangaea test` printed %v and ended with status %d; the raise in file %d ends the run: %v, status 1", layout, printed, code, firstBad, want), layout)
+			}
+		}
+		r := fw.Result{Verdict: fw.Held, Evals: n, Counters: map[string]int{"test_directory_runs": n, "fault_cases": n, "raise_marker_observed": n}, DKeys: []string{"test-directory"}}
+		vs.finish(&r)
+		w.End(r)
+	}
 	handlers := []string{"none", "try", "thoughtful"}
-	raisers := []struct{ fn, kind, msg string }{{"R", "ValueErr", "boom%d"}, {"RZ", "ZeroDivisionErr", "cannot be divided by 0"}}
+	raisers := []struct{ fn, kind, msg string }{{"R", "ValueErr", "boom%d"}, {"RZ", "ZeroDivisionErr", "cannot be divided by 0"}, {"RS", "StopIterErr", "boom%d"}}
 	for _, t := range all {
 		if !w.Take() {
 			continue
@@ -280,6 +346,10 @@ func runC07(w *fw.W) {
 		holes := c07holes(t.text)
 		for _, h := range holes {
 			for _, rz := range raisers {
+				if rz.fn == "RS" && (strings.Contains(t.text, "<{") || strings.Contains(t.text, "yield") || strings.Contains(t.name, "native callback") || strings.Contains(t.name, "Iterable#") || strings.Contains(t.text, "lazyMap")) {
+					// inside an iterator (or a library loop built on one) an error of the kind StopIterErr means "exhausted"
+					continue
+				}
 				for _, hd := range handlers {
 					expr := c07instantiate(t.text, h.idx, rz.fn, 0)
 					var prog string
